@@ -256,6 +256,8 @@ def core_case(seed):
         else:
           head_named.append((n, b.int_expr(bound, 1)))
       value = b.int_expr(bound, 1) if functional else None
+      if len(head_named) > 1 and ri > 0 and rnd.random() < 0.5:
+        head_named.reverse()     # rules of one predicate may list named arguments in any order
       rules.append(Rule(name, head_args, head_named, value, False, body,
                         rnd.choice(['=', '=', 'logica_value'])))
     preds[name] = (npos, named, functional)
